@@ -34,6 +34,10 @@ def gen(ctx, W, n_per_kind, probes):
                               'sigma': r.choice([0.0, 0.7, 1.3]), 'C': r.choice([0.05, 0.4, 100.0]), 'clipping': clip, 'mode': mode, 'reduction': red,
                               'scale': r.choice([0.1, 1.0, 10.0]),
                               'shards': shards(r, W, r.randint(1, 3), allow_empty=(clip in ('flat', 'ghost') and i > 0))})
+    for clip, mode in (('flat', 'hooks'), ('ghost', 'ghost')):
+        # parameters added to the optimizer after it was built (add_param_group), several steps
+        cases.append({'seed': r.randint(0, 10**5), 'model': 'lin', 'B': 6, 'sigma': 0.7, 'C': 0.4, 'clipping': clip, 'mode': mode, 'reduction': r.choice(['mean', 'sum']),
+                      'scale': 1.0, 'shards': shards(r, W, 3, allow_empty=False), 'late_group': True})
     for i in range(probes):
         for clip, mode in KINDS:
             if clip == 'ghost':
